@@ -1,24 +1,23 @@
-//! A flag that can be raised to wake a task.
+//! A flag that can be raised to wake tasks.
 //!
-//! Copied wholesale from <https://docs.rs/futures/latest/futures/task/struct.AtomicWaker.html>
-//! unfortunately not aware of crated version!
+//! Any number of tasks may wait on (clones of) the same flag; raising it wakes all of them.
 
 use std::{
 	pin::Pin,
 	sync::{
 		atomic::{AtomicBool, Ordering::Relaxed},
-		Arc,
+		Arc, Mutex,
 	},
 };
 
 use futures::{
 	future::Future,
-	task::{AtomicWaker, Context, Poll},
+	task::{Context, Poll, Waker},
 };
 
 #[derive(Debug)]
 struct Inner {
-	waker: AtomicWaker,
+	wakers: Mutex<Vec<Waker>>,
 	set: AtomicBool,
 }
 
@@ -34,7 +33,7 @@ impl Default for Flag {
 impl Flag {
 	pub fn new(value: bool) -> Self {
 		Self(Arc::new(Inner {
-			waker: AtomicWaker::new(),
+			wakers: Mutex::new(Vec::new()),
 			set: AtomicBool::new(value),
 		}))
 	}
@@ -45,7 +44,10 @@ impl Flag {
 
 	pub fn raise(&self) {
 		self.0.set.store(true, Relaxed);
-		self.0.waker.wake();
+		let wakers = std::mem::take(&mut *self.0.wakers.lock().expect("flag wakers lock poisoned"));
+		for waker in wakers {
+			waker.wake();
+		}
 	}
 }
 
@@ -58,9 +60,14 @@ impl Future for Flag {
 			return Poll::Ready(());
 		}
 
-		self.0.waker.register(cx.waker());
+		{
+			let mut wakers = self.0.wakers.lock().expect("flag wakers lock poisoned");
+			if !wakers.iter().any(|waker| waker.will_wake(cx.waker())) {
+				wakers.push(cx.waker().clone());
+			}
+		}
 
-		// Need to check condition **after** `register` to avoid a race
+		// Need to check condition **after** registering to avoid a race
 		// condition that would result in lost notifications.
 		if self.0.set.load(Relaxed) {
 			Poll::Ready(())
